@@ -71,7 +71,7 @@ ACCEPTOR = {
     'garbage-established': [('P', [('RQ',)]), ('U', 'AC', ()), ('P', [('MSG', 1, 0, [1])]), ('P', [('UNK0',)]), ('FIN',)],
     'early-data': [('P', [('RQ',), ('MSG', 1, 0, [1])]), ('FIN',)],
     'abort-close': [('P', [('RQ',)]), ('U', 'AC', ()), ('P', [('MSG', 1, 1, [1, 1]), ('AB', [2, 5])]), ('FIN',)],
-    'release-data': [('P', [('RQ',)]), ('U', 'AC', ()), ('U', 'RLRQ', ()), ('P', [('MSG', 1, 1, [2]), ('RLRP',)])],
+    'release-data': [('P', [('RQ',)]), ('U', 'AC', ()), ('U', 'RLRQ', ()), ('P', [('MSG', 1, 1, [1, 1]), ('RLRP',)])],
     # a message of the peer begun while established is completed after the local user has asked for release (Sta7)
     'release-mid-message': [('P', [('RQ',)]), ('U', 'AC', ()), ('P', [('MSGA', 1, 2, [1, 1, 1], 1)]), ('U', 'RLRQ', ()),
                             ('P', [('MSGB',), ('RLRP',)])],
